@@ -2,6 +2,7 @@
 import SpiceEv.Wire
 import SpiceEv.Model.StratDistributed
 import SpiceEv.Cmd.Strategies
+import SpiceEv.Cmd.StratPeakShaving
 namespace SpiceEv.Cmd.StratDistributed
 open SpiceEv SpiceEv.Distrib SpiceEv.Cmd.Strategies
 
@@ -20,7 +21,8 @@ def pKind : P Kind := do
 def pSub : P (SubStrat Float) := do
   let rule ← pRule
   let eps ← P.num Float; let thr ← P.num Float; let tsph ← P.num Float; let interval ← P.int
-  pure ⟨rule, eps, thr, tsph, interval⟩
+  let ps ← P.opt (do let h ← P.int; let pf ← P.bool; let fuel ← P.nat; pure (⟨h, pf, fuel⟩ : PSCfg))
+  pure ⟨rule, eps, thr, tsph, interval, ps⟩
 
 def pVt : P (VirtVT Float) := do
   let cap ← P.num Float; let cc ← pCurve; let mc ← P.num Float; let eff ← P.num Float
@@ -39,6 +41,8 @@ def floatDOps (T : Float) : DOps Float (Battery Float) where
   bat := floatOps T
   newBattery vt soc := Battery.new Cmd.Battery.e5 vt.capacity vt.chargingCurve soc vt.efficiency (some vt.dischargeCurve)
   setSoc b s := { b with soc := s }
+  loadMaxPower b := b.loadingCurve.maxPower
+  sum := floatSum
 
 def rCurve (c : Curve Float) : String :=
   renderList (fun (p : Float × Float) => rNum p.1 ++ " " ++ rNum p.2) c.points ++ " " ++ rNum c.maxPower
@@ -62,7 +66,7 @@ def pInit : P (DInit Float) := do
   let gcb ← P.list (do let k ← P.tok; let v ← pIds; pure (k, v))
   let vvt ← P.list (do let k ← P.tok; let v ← pVt; pure (k, v))
   let vcs ← P.list pCs
-  pure ⟨strategies, gcb, vvt, vcs⟩
+  pure { strategies := strategies, gcBattery := gcb, virtualVt := vvt, virtualCs := vcs }
 
 def pBatC : P (StatBatS Float (Battery Float) × Curve Float) := do
   let b ← pBat; let c ← pCurve; pure (b, c)
@@ -77,8 +81,10 @@ def cmdInit : P String := do
   | .ok (ini, conn) => pure (rInit ini ++ " | " ++ renderList rIdsKV conn)
 
 /-- `step_distributed eps threshold tsPerHour now interval <sub opps> <sub deps> <gcs> <number_cs> <stations> <vehicles>
-<batteries> <connected> <init state> <arrival events>` →
-`commands | loads and limit per connector | station power | vehicle SoCs | battery SoCs | connected | virtual station power`
+<batteries> <connected> <init state> <events of a peak-shaving opps sub-strategy> <… deps …> <arrival events>
+<all future events>` (sub = `rule eps threshold tsPerHour interval <N | S horizon perfect fuel>`) →
+`commands | loads and limit per connector | station power | vehicle SoCs | battery SoCs | connected | virtual station power
+| #events left in the opps / deps sub-strategy`
 or the exception -/
 def cmdStep : P String := do
   let eps ← P.num Float; let thr ← P.num Float; let tsph ← P.num Float
@@ -89,9 +95,12 @@ def cmdStep : P String := do
   let css ← P.list pCs; let vs ← P.list pVeh; let bs ← P.list pBat
   let conn ← P.list (do let k ← P.tok; let v ← pIds; pure (k, v))
   let ini ← pInit
+  let oe ← P.list SpiceEv.PeakShaving.Cmd.pEv; let dEv ← P.list SpiceEv.PeakShaving.Cmd.pEv
+  let ini := { ini with oppsEvents := oe, depsEvents := dEv }
   let evs ← P.list pEvent
+  let fut ← P.list SpiceEv.PeakShaving.Cmd.pEv
   let T := Cmd.Battery.hoursOfMicros interval
-  let de : DEnv Float := ⟨⟨eps, thr, tsph, now, interval⟩, T, opps, deps⟩
+  let de : DEnv Float := ⟨⟨eps, thr, tsph, now, interval⟩, T, opps, deps, fut⟩
   match step (floatDOps T) de ⟨⟨gcs, css, vs, bs⟩, ncs, conn, ini, evs⟩ with
   | .error e => pure (renderErr e)
   | .ok (s, cmds) =>
@@ -102,7 +111,8 @@ def cmdStep : P String := do
       " ".intercalate (w.vehicles.map (fun v => rNum v.bat.soc)) ++ " | " ++
       " ".intercalate (w.batteries.map (fun b => rNum b.bat.soc)) ++ " | " ++
       renderList rIdsKV s.connected ++ " | " ++
-      " ".intercalate (s.init.virtualCs.map (fun c => rNum c.currentPower)))
+      " ".intercalate (s.init.virtualCs.map (fun c => rNum c.currentPower)) ++ " | " ++
+      toString s.init.oppsEvents.length ++ " " ++ toString s.init.depsEvents.length)
 
 /-- `signal_distributed <n> (signal start)…` → the signal times after `__init__` -/
 def cmdSignal : P String := do
